@@ -21,6 +21,7 @@ import GE.Model.ExprStr
 import GE.Model.BindingMap
 import GE.Model.CssIO
 import GE.Model.TagSemJson
+import GE.Model.TagTree
 /-!
 Model driver: one request per line (`op TAB field…`), one answer line per request.
 Unknown ops answer `bad-op` (never defaulted).
@@ -150,6 +151,46 @@ partial def jOfSExp : GE.Codec.SExp → Option J
       | .list [.str k, v] => (jOfSExp v).map fun j => (k, j)
       | _ => none).map .obj
   | _ => none
+
+open GE.TagTree in
+def optOfSExp : GE.Codec.SExp → Option (Option String)
+  | .atom "-" => some none
+  | .str s => some (some s)
+  | _ => none
+
+open GE.TagTree in
+def strsOfSExps (xs : List GE.Codec.SExp) : Option (List String) :=
+  xs.mapM fun (x : GE.Codec.SExp) => match x with
+    | .str s => some s
+    | _ => none
+
+open GE.TagTree in
+def baseOfSExp : GE.Codec.SExp → Option Base
+  | .list (.atom "normal" :: .str p :: refs) => (strsOfSExps refs).map (.normal p)
+  | .list (.atom "pure" :: sl :: refs) => do some (.pure (← optOfSExp sl) (← strsOfSExps refs))
+  | .list (.atom "slot" :: .str p :: refs) => (strsOfSExps refs).map (.slotEl p)
+  | .list [.atom "leaf", .str p] => some (.leaf p)
+  | _ => none
+
+open GE.TagTree in
+def ctlOfSExp : GE.Codec.SExp → Option Ctl
+  | .list [.atom "ctl", i, ei, el, f, it, ix, k] => do
+    some { wxIf := ← optOfSExp i, wxElif := ← optOfSExp ei, wxElse := (match el with | .atom "else" => true | _ => false),
+           wxFor := ← optOfSExp f, item := ← optOfSExp it, index := ← optOfSExp ix, key := ← optOfSExp k }
+  | _ => none
+
+open GE.TagTree in
+mutual
+partial def xOfSExp : GE.Codec.SExp → Option X
+  | .list [.atom "text", .str s] => some (.text s)
+  | .list [.atom "comment"] => some .comment
+  | .list [.atom "gone"] => some .gone
+  | .list (.atom "el" :: b :: c :: kids) => do some (.el (← baseOfSExp b) (← ctlOfSExp c) (← xsOfSExps kids))
+  | _ => none
+partial def xsOfSExps : List GE.Codec.SExp → Option XS
+  | [] => some .nil
+  | x :: r => do some (.cons (← xOfSExp x) (← xsOfSExps r))
+end
 
 def parseCond (f : String) : Option GE.TagGen.CondItem :=
   if f == "else" then some .els
@@ -353,6 +394,16 @@ def step (fs : List String) : String :=
         "\t".intercalate ((",".intercalate adv :: outs).map esc)
       | _, _, _ => "bad-tree"
     | _, _ => "bad-sexp"
+  | ["tagtree", xsx] =>
+    -- tag-level structure: what the parser makes of a sequence of sibling tags, and what the printer prints for that tree
+    match parseSExp xsx with
+    | some (.list (.atom "tags" :: xs)) =>
+      match xsOfSExps xs with
+      | some f =>
+        let a := GE.TagTree.parse f
+        esc (GE.TagTree.AS.show a) ++ "\t" ++ esc (GE.TagTree.XS.show (GE.TagTree.print a))
+      | none => "bad-tree"
+    | _ => "bad-sexp"
   | ["mix_print", pieces] =>
     -- value printer model on pieces `T…` / `B…` separated by U+0001
     let ps : List GE.Mix.Piece := (if pieces.isEmpty then [] else pieces.splitOn "\x01").filterMap fun x =>
